@@ -23,7 +23,8 @@ EXTENDS Integers, Sequences, FiniteSets, TLC, Json
 ---------------------------------------------------------------------------
 (* Part A *)
 
-SecStates == {"absent", "nocrt", "garbage", "cert"}
+(* chain: tls.crt holds the certificate followed by its issuer, as an ACME server hands it out: the first block is the certificate *)
+SecStates == {"absent", "nocrt", "garbage", "cert", "chain"}
 (* notAfter relative to now + expiring window (30 days): expired long ago; well inside the window; 30 s inside; 30 s outside; far *)
 ExpStates == {"expired", "inside", "edge-in", "edge-out", "far"}
 SanSets == {"a", "ab", "abw", "wild", "wildw"}
@@ -41,7 +42,7 @@ Covers(sans, dom) == \A n \in Names(dom) : CoveredBy(sans, n)
 
 Rows == [sec : SecStates, exp : ExpStates, sans : SanSets, dom : DomSets, sign : SignOutcomes]
 
-Needed(r) == r.sec # "cert" \/ r.exp \in {"expired", "inside", "edge-in"} \/ ~Covers(r.sans, r.dom)
+Needed(r) == r.sec \notin {"cert", "chain"} \/ r.exp \in {"expired", "inside", "edge-in"} \/ ~Covers(r.sans, r.dom)
 Obtained(r) == r.sign \in {"ok", "okwarn"}
 
 (* observation o: o.signs (sequence of domain lists Sign was called with), o.written (the secret now holds the
